@@ -373,18 +373,35 @@ fn cases(tier: Tier) -> Vec<Case> {
 }
 
 pub fn property(tier: Tier) -> Property {
-    let cfg = Config { max_bound: tier.q(1, 2), panic_key: "panic", hang_secs: 30, ..Default::default() };
+    let rule = "cases: every byte string of length <= N over {00,01,02,05,80,ff} and every truncation/substitution/deletion/duplication of valid 1-3 message streams (identity/gzip/deflate/zstd; raw and prost decoders), x direction x trailers x injected body errors; environment: every chunking with <= bound cuts/Pending/empty-frame deviations plus byte-by-byte drip; polled 5 more times after the first terminal event. Non-trivial = input is not a clean valid stream (malformed, truncated, body error, or non-OK trailers); distinct = distinct (case, choice vector)";
+    let describe = |c: &Case| {
+        format!(
+            "{} input={} prost={} enc={} dir={:?} trailers={:?} err_at={:?} mode={:?}",
+            c.origin, hex(&c.input), c.prost, enc_name(c.enc), c.dir, c.trl, c.err_at, c.mode
+        )
+    };
+    let all = cases(tier);
+    // a second, deeper pass (one more deviation) over a thinner slice of the same alphabet:
+    // quick = the quick alphabet's short inputs, thorough = the quick alphabet in full
+    let deep: Vec<Case> = match tier {
+        Tier::Quick => cases(Tier::Quick).into_iter().filter(|c| c.mode == Mode::Choose && c.input.len() <= 12).collect(),
+        Tier::Thorough => cases(Tier::Quick).into_iter().filter(|c| c.mode == Mode::Choose).collect(),
+    };
     let sec = Section::new(
         "decode-hostile",
-        cfg,
-        "cases: every byte string of length <= N over {00,01,02,05,80,ff} and every truncation/substitution/deletion/duplication of valid 1-3 message streams (identity/gzip/deflate/zstd; raw and prost decoders), x direction x trailers x injected body errors; environment: every chunking with <= bound cuts/Pending/empty-frame deviations plus byte-by-byte drip; polled 5 more times after the first terminal event. Non-trivial = input is not a clean valid stream (malformed, truncated, body error, or non-OK trailers); distinct = distinct (case, choice vector)",
-        cases(tier),
-        |c: &Case| {
-            format!(
-                "{} input={} prost={} enc={} dir={:?} trailers={:?} err_at={:?} mode={:?}",
-                c.origin, hex(&c.input), c.prost, enc_name(c.enc), c.dir, c.trl, c.err_at, c.mode
-            )
-        },
+        Config { max_bound: 1, panic_key: "panic", hang_secs: 30, ..Default::default() },
+        &format!("{rule} [bound 1; quick: strings <= 5 and one rotating direction/trailers combination per input, thorough: strings <= 7 and all 15 combinations]"),
+        all,
+        describe,
+        body,
+    )
+    .mins(1000, 10, 100);
+    let sec2 = Section::new(
+        "decode-hostile-deep",
+        Config { max_bound: 2, panic_key: "panic", hang_secs: 30, ..Default::default() },
+        &format!("{rule} [bound 2 over a thinner slice: quick = inputs of <= 12 bytes of the quick alphabet, thorough = the whole quick alphabet]"),
+        deep,
+        describe,
         body,
     )
     .mins(1000, 10, 100);
@@ -396,7 +413,7 @@ pub fn property(tier: Tier) -> Property {
             "payload values outside the stated alphabets/mutation menus are not covered".into(),
             "flate2/zstd/prost are trusted as reference decoders".into(),
         ],
-        sections: vec![sec],
+        sections: vec![sec, sec2],
         extra: Default::default(),
     }
 }
